@@ -30,6 +30,8 @@ import (
 	"github.com/renbou/grpcbridge/grpcadapter"
 	"github.com/renbou/grpcbridge/webbridge"
 	"google.golang.org/grpc"
+	"google.golang.org/grpc/codes"
+	"google.golang.org/grpc/status"
 	"google.golang.org/grpc/credentials/insecure"
 	"google.golang.org/grpc/metadata"
 	"google.golang.org/grpc/test/bufconn"
@@ -90,33 +92,48 @@ func (Area) Exec(input string) string {
 	return "BADOP"
 }
 
-func newTarget(hdr, trl map[string][]string, mode string) *fake.Target {
-	n := 1
-	if mode == "stream" {
-		n = 2
+// parseMode: unary|stream[:h<0|1>m<n><k|e>] — header block sent or Trailers-Only, n messages, then io.EOF (k) or an error (e).
+func parseMode(mode string) (streaming bool, hdrSent bool, msgs int, ok bool) {
+	kind, sc, has := strings.Cut(mode, ":")
+	streaming = kind == "stream"
+	hdrSent, msgs, ok = true, 1, true
+	if streaming {
+		msgs = 2
 	}
-	return &fake.Target{Header: metadata.MD(hdr), Trailer: metadata.MD(trl), Responses: n}
+	if has && len(sc) == 5 {
+		hdrSent, msgs, ok = sc[1] == '1', int(sc[3]-'0'), sc[4] == 'k'
+	}
+	return
 }
+
+func newTarget(hdr, trl map[string][]string, mode string) *fake.Target {
+	_, hdrSent, msgs, ok := parseMode(mode)
+	t := &fake.Target{Header: metadata.MD(hdr), Trailer: metadata.MD(trl), Responses: msgs, NoHeader: !hdrSent}
+	if !ok {
+		t.Err = status.Error(codes.PermissionDenied, "scripted failure")
+	}
+	return t
+}
+
+func isStreaming(mode string) bool { s, _, _, _ := parseMode(mode); return s }
 
 func execFwd(o opts, ctxMD, hdr, trl map[string][]string, mode string) string {
 	pf := grpcadapter.NewProxyForwarder(grpcadapter.ProxyForwarderOpts{Filter: grpcadapter.NewProxyMDFilter(o)})
 	tgt := newTarget(hdr, trl, mode)
-	rt := &fake.Router{Conn: tgt, ServerStreaming: mode == "stream"}
+	rt := &fake.Router{Conn: tgt, ServerStreaming: isStreaming(mode)}
 	_, route, _ := rt.RouteGRPC(context.Background())
 	inc := fake.NewIncoming(1)
 	ctx, cancel := context.WithCancel(context.Background())
 	defer cancel()
 	ctx = metadata.NewIncomingContext(ctx, metadata.MD(ctxMD))
 	err := pf.Forward(ctx, grpcadapter.ForwardParams{Target: route.Target, Service: route.Service, Method: route.Method, Incoming: inc, Outgoing: tgt})
-	if err != nil {
-		return "ERR " + common.HexS(err.Error())
-	}
+	_ = err // a scripted failure of the target is an expected outcome; what matters is what crossed
 	_, out, dl := tgt.Snapshot()
 	t := "unset"
 	if inc.TrlSet > 0 {
 		t = fake.ShowMD(inc.Trl)
 	}
-	return fmt.Sprintf("out=%s dl=%s hdr=%s trl=%s", fake.ShowMD(out), dl, fake.ShowMD(inc.Hdr), t)
+	return fmt.Sprintf("out=%s dl=%s hdr=%s trl=%s sent=%d", fake.ShowMD(out), dl, fake.ShowMD(inc.Hdr), t, inc.Sent)
 }
 
 
@@ -127,7 +144,7 @@ var wsInfra = map[string]bool{"Upgrade": true, "Connection": true, "Sec-Websocke
 func execE2E(entry string, o opts, sent map[string][]string, pairs [][2]string, thdr, ttrl map[string][]string, mode string) string {
 	pf := grpcadapter.NewProxyForwarder(grpcadapter.ProxyForwarderOpts{Filter: grpcadapter.NewProxyMDFilter(o)})
 	tgt := newTarget(thdr, ttrl, mode)
-	rt := &fake.Router{Conn: tgt, ServerStreaming: mode == "stream"}
+	rt := &fake.Router{Conn: tgt, ServerStreaming: isStreaming(mode)}
 
 	var seen http.Header
 	wrap := func(h http.Handler) http.Handler {
@@ -367,12 +384,18 @@ func execProxy(pf *grpcadapter.ProxyForwarder, rt *fake.Router, tgt *fake.Target
 			chm[k] = v
 		}
 	}
+	ctm := map[string][]string{}
+	for k, v := range ct {
+		if k != "content-type" { // Trailers-Only: grpc-go reports the single header block, with grpc's own content-type, as the trailer
+			ctm[k] = v
+		}
+	}
 	n, out, dl := tgt.Snapshot()
 	if n == 0 {
 		return "fwd=0"
 	}
 	_, _, _, seen := rt.Calls()
-	return fmt.Sprintf("fwd=1 seen=%s out=%s dl=%s ch=%s ct=%s", fake.ShowMD(seen), fake.ShowMD(out), dl, fake.ShowMD(chm), fake.ShowMD(map[string][]string(ct)))
+	return fmt.Sprintf("fwd=1 seen=%s out=%s dl=%s ch=%s ct=%s", fake.ShowMD(seen), fake.ShowMD(out), dl, fake.ShowMD(chm), fake.ShowMD(ctm))
 }
 
 func sortedKeys(m map[string][]string) []string {
@@ -549,6 +572,20 @@ func genRespMD(r *rand.Rand, allow []string) map[string][]string {
 	return md
 }
 
+// genMode: how the scripted target's stream ends — at every position: before headers (Trailers-Only),
+// after headers, after messages; with io.EOF or an error status.
+var scripts = []string{"h0m0e", "h0m0e", "h0m0k", "h1m0e", "h1m0k", "h1m1e", "h1m1k", "h1m2e", "h1m2k", "h1m3e"}
+
+func genMode(r *rand.Rand) string {
+	kind := common.Pick(r, []string{"unary", "stream"})
+	if r.Intn(5) < 2 {
+		return kind
+	}
+	return kind + ":" + common.Pick(r, scripts)
+}
+
+func union(a, b []string) []string { return append(append([]string{}, a...), b...) }
+
 func (Area) Gen(r *rand.Rand, tier string, emit func(string)) {
 	nBin, nFilt, nFwd, nE2E := 4000, 6000, 1500, 400
 	if tier == "thorough" {
@@ -597,6 +634,22 @@ func (Area) Gen(r *rand.Rand, tier string, emit func(string)) {
 		md := genMD(r, allow, pool, false, true)
 		emit("filt " + which + " " + showOpts(o) + " " + fake.ShowMD(md))
 	}
+	// ---- response/trailer allow-lists that differ x target ending at every position (fwd and every entry point):
+	// x-r is on the response list only, x-t on the trailer list only, x-b on both; both blocks carry all three
+	{
+		o := opts{AllowResponseMD: []string{"x-r", "x-b"}, PrefixResponseMD: "h-", AllowTrailerMD: []string{"x-t", "x-b"}, PrefixTrailerMD: "t-"}
+		hdr := map[string][]string{"x-r": {"hr"}, "x-t": {"ht"}, "x-b": {"hb"}, "x-n": {"hn"}}
+		trl := map[string][]string{"x-r": {"tr"}, "x-t": {"tt"}, "x-b": {"tb"}, "x-n": {"tn"}}
+		for _, kind := range []string{"unary", "stream"} {
+			for _, sc := range []string{"h0m0e", "h0m0k", "h1m0e", "h1m0k", "h1m1e", "h1m1k", "h1m2e", "h1m2k", "h1m3e"} {
+				mode := kind + ":" + sc
+				emit(fmt.Sprintf("fwd %s m: %s %s %s", showOpts(o), fake.ShowMD(hdr), fake.ShowMD(trl), mode))
+				for _, entry := range []string{"http", "ws", "grpcweb", "grpcws", "proxy"} {
+					emit(fmt.Sprintf("e2e %s %s m: p: %s %s %s", entry, showOpts(o), fake.ShowMD(hdr), fake.ShowMD(trl), mode))
+				}
+			}
+		}
+	}
 	// ---- fwd
 	for i := 0; i < nFwd; i++ {
 		o := genOpts(r, keyPool)
@@ -607,7 +660,7 @@ func (Area) Gen(r *rand.Rand, tier string, emit func(string)) {
 		}
 		hdr := genMD(r, append(append([]string{}, o.AllowResponseMD...), o.AllowTrailerMD...), respKeys, true, false)
 		trl := genMD(r, append(append([]string{}, o.AllowTrailerMD...), o.AllowResponseMD...), respKeys, true, false)
-		emit(fmt.Sprintf("fwd %s %s %s %s %s", showOpts(o), fake.ShowMD(dedupLower(ctxMD)), fake.ShowMD(hdr), fake.ShowMD(trl), common.Pick(r, []string{"unary", "stream"})))
+		emit(fmt.Sprintf("fwd %s %s %s %s %s", showOpts(o), fake.ShowMD(dedupLower(ctxMD)), fake.ShowMD(hdr), fake.ShowMD(trl), genMode(r)))
 	}
 	// ---- e2e
 	for _, entry := range []string{"http", "ws", "grpcweb", "grpcws", "proxy"} {
@@ -671,9 +724,10 @@ func (Area) Gen(r *rand.Rand, tier string, emit func(string)) {
 					sent[common.Pick(r, tokenKeys)] = []string{"hdr" + printable(r) + "v"}
 				}
 			}
-			thdr := genRespMD(r, o.AllowResponseMD)
-			ttrl := genRespMD(r, o.AllowTrailerMD)
-			emit(fmt.Sprintf("e2e %s %s %s %s %s %s %s", entry, showOpts(o), fake.ShowMD(sent), fake.ShowPairs(pairs), fake.ShowMD(thdr), fake.ShowMD(ttrl), common.Pick(r, []string{"unary", "stream"})))
+			// header and trailer metadata from overlapping pools: both blocks carry names of BOTH lists
+			thdr := genRespMD(r, union(o.AllowResponseMD, o.AllowTrailerMD))
+			ttrl := genRespMD(r, union(o.AllowTrailerMD, o.AllowResponseMD))
+			emit(fmt.Sprintf("e2e %s %s %s %s %s %s %s", entry, showOpts(o), fake.ShowMD(sent), fake.ShowPairs(pairs), fake.ShowMD(thdr), fake.ShowMD(ttrl), genMode(r)))
 		}
 	}
 }
